@@ -25,6 +25,9 @@ pub enum Ty {
     Slice,
     /// a pointer cast to `*const uN` / `*mut uN`: the address (as Ptr) + the access width in bytes
     TPtr(u32),
+    /// `&v[i]` bound to a local: the element of an opaque vector, seen as its index (opaque method calls on it
+    /// get the index as their first argument, exactly as calls on `v[i]` itself)
+    IdxRef,
     Unknown,
 }
 
@@ -44,6 +47,19 @@ pub enum Loc {
     /// the idx-th closure (source order) inside the function at `outer`: its parameters are the function's
     /// parameters (types from `param_tys` / Unit), its body the function's body
     Closure { outer: Box<Loc>, idx: usize },
+}
+
+/// How a PRIVATE function (whose name a refactoring may change) is found when no function of the table's
+/// name exists: it is the callee of the `nth` call (source order) with `nargs` arguments - a method call
+/// (`x.f(..)`) or a path call (`f(..)`, `Self::f(..)`) - in the body of the function at `outer`, which is
+/// public or is itself resolved through `outer_via`.
+#[derive(Debug, Clone)]
+pub struct Via {
+    pub outer: Loc,
+    pub outer_via: Option<Box<Via>>,
+    pub method: bool,
+    pub nargs: usize,
+    pub nth: usize,
 }
 
 #[derive(Debug, Clone)]
@@ -147,6 +163,14 @@ pub struct Spec {
     /// `self.iter().map(F).fold(INIT, G)` is translated to the triple (INIT, fun <extras of F> => F .., G):
     /// F a kernel of this group (its extra parameters become the arguments), G `std::cmp::max` / `min`
     pub iter_fold: Option<&'static str>,
+    // ---- robustness against behaviour-preserving rewrites (docs/RS2V.md "Normal form")
+    /// fallback location of a private function: through its call site in a public function
+    pub via: Option<Via>,
+    /// POSITIONS behind the names the table uses for things a refactoring may rename, tried when the name is
+    /// not found: (selector, table name); selectors: "let#i" = the i-th top-level `let` of the function (for a
+    /// closure kernel: of the ENCLOSING function), "param#i" = the i-th parameter of the enclosing function,
+    /// "closure#i" = the `let` that binds the i-th closure of the function
+    pub positions: Vec<(&'static str, &'static str)>,
 }
 
 impl Spec {
@@ -229,8 +253,15 @@ fn base(module: &'static str, group: &'static str, file: &'static str, name: &'s
         recv_groups: vec![], id_methods: vec![], skip_as: vec![], rewrite: vec![], ctors: vec![], argsel: vec![],
         skip_loops: false, ret_wrap: None, note: "",
         type_params: vec![], recv_arg: vec![], break_value: false, loop_cond: false, effects_ret: false, with_locals: vec![],
-        ptr_checked: false, closure_params: vec![], after_loop: None, skip_lets: vec![], iter_fold: None,
+        ptr_checked: false, closure_params: vec![], after_loop: None, skip_lets: vec![], iter_fold: None, via: None, positions: vec![],
     }
+}
+
+fn via(outer: Loc, method: bool, nargs: usize, nth: usize) -> Option<Via> {
+    Some(Via { outer, outer_via: None, method, nargs, nth })
+}
+fn via2(outer: Loc, outer_via: Option<Via>, method: bool, nargs: usize, nth: usize) -> Option<Via> {
+    Some(Via { outer, outer_via: outer_via.map(Box::new), method, nargs, nth })
 }
 
 fn ex(pat: &'static str, param: &'static str, ty: Ty) -> Extra {
@@ -289,11 +320,21 @@ pub fn table() -> Vec<Spec> {
         s.extra = vec![ex("self . len ()", "len", Ty::Int(64))];
         t.push(s);
     }
-    t.push(base("Volatile", "Volatile", "src/volatile_memory.rs", "alignment", "alignment", Loc::Free("alignment")));
+    // private functions of mod copy_slice_impl: found by name, else through their call sites starting from the
+    // pub(crate) copy_from_volatile_slice (-> copy_slice -> copy_slice_volatile -> alignment / copy_single)
+    let via_copy_slice = || via(Loc::Free("copy_from_volatile_slice"), false, 3, 0);
+    let via_csv = || via2(Loc::Free("copy_slice"), via_copy_slice(), false, 3, 0);
+    {
+        let mut s = base("Volatile", "Volatile", "src/volatile_memory.rs", "alignment", "alignment", Loc::Free("alignment"));
+        s.via = via2(Loc::Free("copy_slice_volatile"), via_csv(), false, 1, 0);
+        t.push(s);
+    }
     {
         let mut s = base("Volatile", "Volatile", "src/volatile_memory.rs", "check_alignment", "check_alignment",
                          Loc::Impl { ty: "VolatileSlice", tr: None, f: "check_alignment" });
         s.extra = vec![ex("self . addr as usize", "addr", Ty::Int(64))];
+        // private method: the 1-argument method call of the public get_atomic_ref
+        s.via = via(Loc::Trait("VolatileMemory", "get_atomic_ref"), true, 1, 0);
         t.push(s);
     }
     {
@@ -335,6 +376,7 @@ pub fn table() -> Vec<Spec> {
         s.extra = vec![tsize()];
         s.until = Some("let slice");
         s.locals = Some(vec!["nbytes"]);
+        s.positions = vec![("let#0", "nbytes")];
         s.step = Some(("N", "rres unit"));
         t.push(s);
         // VolatileSlice::copy_to / copy_from: which branch, how many bytes / elements
@@ -365,6 +407,7 @@ pub fn table() -> Vec<Spec> {
         let mut s = va("va_ref_at_byteofs", "ref_at");
         s.extra = vec![nelem(), esz()];
         s.locals = Some(vec!["byteofs"]);
+        s.positions = vec![("let#0", "byteofs")];
         t.push(s);
         let mut s = va("va_to_slice", "to_slice");
         s.extra = vec![addr_p(), nelem(), esz()];
@@ -410,6 +453,8 @@ pub fn table() -> Vec<Spec> {
         // copy_slice_volatile: align = min(alignment(src), alignment(dst)); the passes 8 (64-bit host), 4, 2, 1 of
         // the closure in this order (calls of the opaque local closure); returns total.  Result: (calls, (total, align))
         let mut s = cs("csv_plan", "copy_slice_volatile", Loc::Free("copy_slice_volatile"));
+        s.via = via_csv();
+        s.positions = vec![("let#1", "align"), ("closure#0", "copy_aligned_slice")];
         s.canon_params = vec!["dst", "src", "total"];
         s.effects = vec!["copy_aligned_slice"];
         s.effects_ret = true;
@@ -418,7 +463,12 @@ pub fn table() -> Vec<Spec> {
         t.push(s);
         // the closure `copy_aligned_slice(min_align)`: its guard `if align < min_align { return; }` ...
         let closure = || Loc::Closure { outer: Box::new(Loc::Free("copy_slice_volatile")), idx: 0 };
+        // captured variables of the closure by position in the enclosing function: dst / src = its parameters 0 / 1,
+        // left / align = its top-level lets 0 / 1
+        let captured = || vec![("param#0", "dst"), ("param#1", "src"), ("let#0", "left"), ("let#1", "align")];
         let mut s = cs("cas_guard", "copy_aligned_slice", closure());
+        s.via = via_csv();
+        s.positions = captured();
         s.canon_params = vec!["min_align"];
         s.param_tys = vec![("min_align", Ty::Int(64))];
         s.extra = vec![ex("align", "align", Ty::Int(64))];
@@ -429,6 +479,8 @@ pub fn table() -> Vec<Spec> {
         // src, dst) (opaque), left -= min_align, `if left == 0 { break }`, src/dst advanced (the captured
         // variables src, dst, left are the state)
         let mut s = cs("cas_body", "copy_aligned_slice", closure());
+        s.via = via_csv();
+        s.positions = captured();
         s.canon_params = vec!["min_align"];
         s.param_tys = vec![("min_align", Ty::Int(64))];
         s.loop_idx = Some(0);
@@ -441,11 +493,13 @@ pub fn table() -> Vec<Spec> {
         // copy_single: which widths are accepted and that source and destination are accessed with that width
         // (`p as *const uN` = the address + N/8; the plain `*const u8` pointers of the 1-byte arm carry no width)
         let mut s = cs("copy_single", "copy_single", Loc::Free("copy_single"));
+        s.via = via2(Loc::Free("copy_slice_volatile"), via_csv(), false, 3, 0);
         s.canon_params = vec!["align", "src_addr", "dst_addr"];
         s.effects = vec!["read_volatile", "write_volatile"];
         t.push(s);
         // copy_slice: the `total <= size_of::<usize>()` threshold: volatile loop vs bulk copy; returns total
         let mut s = cs("copy_slice", "copy_slice", Loc::Free("copy_slice"));
+        s.via = via_copy_slice();
         s.canon_params = vec!["dst", "src", "total"];
         s.effects = vec!["copy_slice_volatile", "copy_nonoverlapping"];
         s.effects_ret = true;
@@ -586,6 +640,7 @@ pub fn table() -> Vec<Spec> {
             s.param_tys = vec![("offset", Ty::Int(64)), ("count", Ty::Int(64)), ("caddr", Ty::Addr), ("region", Ty::Unit)];
             s.drop_params = vec!["count", "region"];
             s.extra = vec![ex("buf", "buf_len", Ty::Slice)];
+            s.positions = vec![("param#0", "buf")];
             s.fns = vec![ofn(f, "region_call", "N -> N -> R", Ty::Unknown)];
             t.push(s);
         }
@@ -653,6 +708,7 @@ pub fn table() -> Vec<Spec> {
     {
         let mut s = bm("new_sizes", "new");
         s.locals = Some(vec!["num_pages", "map_size"]);
+        s.positions = vec![("let#0", "num_pages"), ("let#1", "map_size")];
         s.consts = vec![bits.clone()];
         t.push(s);
         let mut s = bm("is_bit_set", "is_bit_set");
@@ -663,9 +719,12 @@ pub fn table() -> Vec<Spec> {
         s.extra = vec![size(), psz()];
         s.fns = vec![load()];
         t.push(s);
+        // set_reset_addr_range is private: by name, else the 3-argument self-method call of the public set_addr_range
         let mut s = bm("range_bits", "set_reset_addr_range");
         s.extra = vec![psz()];
         s.locals = Some(vec!["first_bit", "last_bit"]);
+        s.positions = vec![("let#0", "first_bit"), ("let#1", "last_bit")];
+        s.via = via(Loc::Impl { ty: "AtomicBitmap", tr: None, f: "set_addr_range" }, true, 3, 0);
         t.push(s);
         for f in ["set_bit", "reset_bit"] {
             let mut s = bm(f, f);
@@ -681,6 +740,7 @@ pub fn table() -> Vec<Spec> {
         s.extra = vec![psz()];
         s.state = vec![ex("self . byte_size", "byte_size", Ty::Int(64)), ex("self . size", "size", Ty::Int(64))];
         s.locals = Some(vec!["map_size"]);
+        s.positions = vec![("let#0", "map_size")];
         s.until = Some("self . map . resize_with");
         s.step = Some(("N * N * N", "unit"));
         s.consts = vec![bits.clone()];
@@ -688,6 +748,7 @@ pub fn table() -> Vec<Spec> {
         // ONE iteration of the bit loop of set_reset_addr_range: `if n >= self.size { break; }`, then
         // fetch_or / fetch_and on word n >> 6 with mask 1 << (n & 63)
         let mut s = bm("range_body", "set_reset_addr_range");
+        s.via = via(Loc::Impl { ty: "AtomicBitmap", tr: None, f: "set_addr_range" }, true, 3, 0);
         s.extra = vec![size()];
         s.loop_idx = Some(0);
         s.vars = vec![("n", Ty::Int(64))];
@@ -725,6 +786,7 @@ pub fn table() -> Vec<Spec> {
         t.push(s);
         let mut s = base("AtomicBitmap", "AtomicBitmap", bfile, "clone_fields", "clone", cl());
         s.skip_lets = vec!["map"];
+        s.positions = vec![("let#0", "map")];
         s.extra = vec![size(), ex("self . byte_size", "byte_size", Ty::Int(64)), psz()];
         s.fields = vec!["size", "byte_size", "page_size"];
         t.push(s);
@@ -855,6 +917,13 @@ pub fn table() -> Vec<Spec> {
         // bytes < 0 => (read: mark the whole buffer) Err(last_os_error), else (read: mark bytes) Ok(bytes)
         for (name, f, sys) in [("read_volatile_raw_fd", "read_volatile_raw_fd", "read"), ("write_volatile_raw_fd", "write_volatile_raw_fd", "write")] {
             let mut s = io(name, f, Loc::Free(f));
+            // private: by name, else the 2-argument path call of the impl that delegates to it
+            s.via = if sys == "write" {
+                via(Loc::Impl { ty: "Stdout", tr: Some("WriteVolatile"), f: "write_volatile" }, false, 2, 0)
+            } else {
+                via(Loc::InMacro { mac: "impl_read_write_volatile_for_raw_fd", subst: vec![("raw_fd_ty", "RawFdTy")],
+                                   inner: Box::new(Loc::Impl { ty: "RawFdTy", tr: Some("ReadVolatile"), f: "read_volatile" }) }, false, 2, 0)
+            };
             s.canon_params = vec!["raw_fd", "buf"];
             s.drop_params = vec!["raw_fd", "buf"];
             s.extra = vec![buf_len(), ex("std :: io :: Error :: last_os_error ()", "last_os_error", Ty::Int(64))];
@@ -901,11 +970,12 @@ pub fn table() -> Vec<Spec> {
         t.push(s);
         // find_region: which index the binary-search result selects (the search itself and
         // `self.regions[i].last_addr()` are opaque: bs : Ok i | Err i as inl/inr, last_addr_at i)
+        // (the whole function: the index selection - inline or in a private helper - and the final `self.regions[x].as_ref()`)
         let mut s = gm("find_region_index", "find_region", Some("GuestMemory"));
-        s.locals = Some(vec!["index"]);
         s.canon_params = vec!["addr"];
+        s.closure_params = vec![("x", Ty::Int(64))];
         s.extra = vec![ext("self . regions . binary_search_by_key (& addr , | x | x . start_addr ())", "bs", "(N + N)%type", either())];
-        s.fns = vec![ofn("last_addr", "last_addr_at", "N -> N", Ty::Addr)];
+        s.fns = vec![ofn("last_addr", "last_addr_at", "N -> N", Ty::Addr), ofn("as_ref", "region_at", "N -> R", Ty::Unknown)];
         t.push(s);
         // remove_region: Ok only when the search finds the base AND the size matches
         // (`.get(i).unwrap()` of the found index: size_at i : option N); the value is the removed index
@@ -961,6 +1031,7 @@ pub fn table() -> Vec<Spec> {
         s.extra = vec![ps(), ex("grant . guest_base . 0", "guest_base", Ty::Int(64))];
         s.drop_params = vec!["grant", "prot"];
         s.locals = Some(vec!["page_base", "offset", "size", "addr"]);
+        s.positions = vec![("let#1", "page_base"), ("let#2", "offset"), ("let#3", "size"), ("let#4", "addr")];
         t.push(s);
     }
     {
@@ -997,6 +1068,7 @@ pub fn table() -> Vec<Spec> {
         s.extra = vec![ex("page_size ()", "page_size", Ty::Int(64))];
         s.consts = vec![("XEN_GRANT_ADDR_OFF".to_string(), "9223372036854775808".to_string(), Ty::Int(64))];
         s.locals = Some(vec!["base"]);
+        s.positions = vec![("let#0", "base")];
         t.push(s);
     }
     // ------------------------------------------------------------------ src/endian.rs
